@@ -134,19 +134,28 @@ def _close(x, y, rtol, atol=0.0):
 
 
 def cmp_ab(ctx, cfg, opname, pa, pb, extra=None):
-    """restricted vs unrestricted record of one operation."""
+    """restricted vs unrestricted record of one operation.  Walkers that carry no weight
+    (killed by the constraint, or an extinct population) are outside the statement: they
+    keep being propagated without ever being measured, and tiny differences between the
+    two storage formats grow without bound on them."""
     site = "propagator_restricted vs propagator_unrestricted"
     if not _close(pa["weights"], pb["weights"], 1e-8, 1e-12):
         _bad(ctx, "lockstep.restricted_unrestricted_weights_differ", site, cfg, op=opname, a=np.asarray(pa["weights"]).tolist(), b=np.asarray(pb["weights"]).tolist())
-    if not _close(pa["overlaps"], pb["overlaps"], 1e-8):
+    live = (np.asarray(pa["weights"]) > 0) & (np.asarray(pb["weights"]) > 0)
+    if not np.any(live):
+        ctx.count("population_extinct")
+        return False
+    if not _close(np.asarray(pa["overlaps"])[live], np.asarray(pb["overlaps"])[live], 1e-8):
         _bad(ctx, "lockstep.restricted_unrestricted_overlaps_differ", site, cfg, op=opname, a=str(np.asarray(pa["overlaps"]).tolist()), b=str(np.asarray(pb["overlaps"]).tolist()))
-    wa = np.asarray(pa["walkers"])
+    wa = np.asarray(pa["walkers"])[live]
     for s in (0, 1):
-        if not _close(np.asarray(pb["walkers"][s]), wa, 1e-8):
-            _bad(ctx, "lockstep.restricted_unrestricted_walkers_differ", site, cfg, op=opname, spin=s, max_abs_diff=float(np.nanmax(np.abs(np.asarray(pb["walkers"][s]) - wa))))
+        wb = np.asarray(pb["walkers"][s])[live]
+        if not _close(wb, wa, 1e-8):
+            _bad(ctx, "lockstep.restricted_unrestricted_walkers_differ", site, cfg, op=opname, spin=s, max_abs_diff=float(np.nanmax(np.abs(wb - wa))))
             break
     if not _close(pa["pop_control_ene_shift"], pb["pop_control_ene_shift"], 1e-8, 1e-10):
         _bad(ctx, "lockstep.restricted_unrestricted_shift_differs", site, cfg, op=opname, a=float(pa["pop_control_ene_shift"]), b=float(pb["pop_control_ene_shift"]))
+    return True
 
 
 def cmp_ap(ctx, cfg, opname, pa, pp, perm, nb_p):
@@ -154,8 +163,12 @@ def cmp_ap(ctx, cfg, opname, pa, pp, perm, nb_p):
     site = "propagator_restricted.propagate (permutation / batch count)"
     klass = "lockstep.output_not_permutation_covariant" if perm != sorted(perm) else "lockstep.output_depends_on_batch_count"
     idx = np.array(perm)
-    for key, rtol in (("weights", 1e-10), ("overlaps", 1e-10), ("walkers", 1e-10)):
-        if not _close(np.asarray(pp[key]), np.asarray(pa[key])[idx], rtol, 1e-13):
+    if not _close(np.asarray(pp["weights"]), np.asarray(pa["weights"])[idx], 1e-10, 1e-13):
+        _bad(ctx, klass, site, cfg, op=opname, key="weights", perm=perm, n_batch_copy=nb_p)
+        return
+    live = np.asarray(pp["weights"]) > 0  # walkers without weight are outside the statement (see cmp_ab)
+    for key, rtol in (("overlaps", 1e-10), ("walkers", 1e-10)):
+        if np.any(live) and not _close(np.asarray(pp[key])[live], np.asarray(pa[key])[idx][live], rtol, 1e-13):
             _bad(ctx, klass, site, cfg, op=opname, key=key, perm=perm, n_batch_copy=nb_p)
             return
     if not _close(pp["pop_control_ene_shift"], pa["pop_control_ene_shift"], 1e-11, 1e-11):
@@ -273,7 +286,8 @@ def _exec_steps(cfg, ctx):
         elif name == "rebatch":
             nb_p = op[1]
             continue
-        cmp_ab(ctx, cfg, f"{k}:{name}", pa, pb)
+        if not cmp_ab(ctx, cfg, f"{k}:{name}", pa, pb):
+            break
         cmp_ap(ctx, cfg, f"{k}:{name}", pa, pp, perm, nb_p)
         rec.append(arr_hash(np.asarray(pa["weights"]), np.asarray(pa["walkers"]), np.asarray(pa["overlaps"])))
     ctx.count("operations", len(cfg["ops"]))
@@ -303,7 +317,8 @@ def _exec_sampler(cfg, ctx):
         eb, db, pb = lab.call_entry(b, smp, entry, mode, pb, prop=b.plain)
         if not _close(ea, eb, 1e-8, 1e-10):
             _bad(ctx, "lockstep.restricted_unrestricted_block_energy_differs", site, cfg, call=call, a=float(ea), b=float(eb))
-        cmp_ab(ctx, cfg, f"sampler call {call}", pa, pb)
+        if not cmp_ab(ctx, cfg, f"sampler call {call}", pa, pb):
+            break
         if da is not None and np.isfinite(float(da)) and np.isfinite(float(db)) and not _close(da, db, 1e-6, 1e-8):
             _bad(ctx, "lockstep.restricted_unrestricted_derivative_differs", site, cfg, call=call, a=float(da), b=float(db))
         rec.append(arr_hash(np.asarray(ea), np.asarray(pa["weights"])))
